@@ -9,6 +9,13 @@ EXACT_INTERVALS = [
     {"days": 1, "hours": 12}, {"hours": 23, "minutes": 59, "seconds": 59},
     {"days": 400, "seconds": 1}, {"hours": 1, "minutes": -30},
 ]
+# exact intervals with binary fractions (exact in floats): the sub-second
+# part may come from any unit
+BINARY_INTERVALS = [
+    {"hours": 0.03125}, {"days": 1, "hours": 0.03125}, {"seconds": 2.5},
+    {"minutes": 0.125}, {"hours": 0.5}, {"minutes": 1, "seconds": 0.25},
+    {"hours": 1.5, "seconds": 0.5},
+]
 NOMINAL_INTERVALS = [
     {"months": 1}, {"years": 1}, {"months": 1, "days": 2},
     {"years": 30, "days": 2, "hours": 15}, {"months": 4, "days": 1},
